@@ -6,6 +6,7 @@ import (
 	"database/sql/driver"
 	"fmt"
 	"regexp"
+	"sort"
 	"strings"
 
 	sqlite3 "github.com/mattn/go-sqlite3"
@@ -203,4 +204,59 @@ func (d *DB) VariableLimit() int {
 		return nil
 	})
 	return n
+}
+
+// UniqueKeys returns every uniqueness constraint of a table as a sorted column list:
+// the primary key (per table_info) and every unique index (per index_list/index_info).
+func (d *DB) UniqueKeys(table string) [][]string {
+	var out [][]string
+	seen := map[string]bool{}
+	add := func(cols []string) {
+		if len(cols) == 0 {
+			return
+		}
+		sort.Strings(cols)
+		k := strings.Join(cols, ",")
+		if !seen[k] {
+			seen[k] = true
+			out = append(out, cols)
+		}
+	}
+	var pk []string
+	for _, c := range d.Columns(table) {
+		if c.PK > 0 {
+			pk = append(pk, c.Name)
+		}
+	}
+	add(pk)
+	rows, err := d.conn.QueryContext(context.Background(), fmt.Sprintf("PRAGMA index_list(`%s`)", table))
+	if err != nil {
+		return out
+	}
+	var names []string
+	for rows.Next() {
+		var seq, unique, partial int
+		var name, origin string
+		if err := rows.Scan(&seq, &name, &unique, &origin, &partial); err == nil && unique != 0 {
+			names = append(names, name)
+		}
+	}
+	rows.Close()
+	for _, n := range names {
+		r2, err := d.conn.QueryContext(context.Background(), fmt.Sprintf("PRAGMA index_info(`%s`)", n))
+		if err != nil {
+			continue
+		}
+		var cols []string
+		for r2.Next() {
+			var seqno, cid int
+			var name sql.NullString
+			if err := r2.Scan(&seqno, &cid, &name); err == nil {
+				cols = append(cols, name.String)
+			}
+		}
+		r2.Close()
+		add(cols)
+	}
+	return out
 }
